@@ -18,6 +18,7 @@ import (
 	"verifmc/ev"
 	"verifmc/explore"
 	"verifmc/reg"
+	"verifmc/sched"
 )
 
 func init() {
@@ -645,6 +646,24 @@ func sweeps(r *ev.Run, id string) {
 }
 
 func replayCase(r *ev.Run, id string, raw json.RawMessage) {
+	var sc struct {
+		Scenario string `json:"scenario"`
+		Schedule []int  `json:"schedule"`
+	}
+	if json.Unmarshal(raw, &sc) == nil && sc.Scenario != "" {
+		for _, s := range scenarios(true) {
+			if s.name == sc.Scenario {
+				ex, viols, eng := sched.ReplayOne(s.scenario(), sc.Schedule)
+				fmt.Printf("  scenario %s schedule %v -> %s %s\n", sc.Scenario, sc.Schedule, ex.Outcome, eng)
+				for _, v := range viols {
+					r.Violate(id+"/sched/"+sc.Scenario+"/"+v.Sig, v.What, sc)
+				}
+				return
+			}
+		}
+		r.Violate(id+"/replay/unknown-scenario", sc.Scenario, nil)
+		return
+	}
 	var c Case
 	if err := json.Unmarshal(raw, &c); err != nil {
 		r.Violate(id+"/replay/bad-file", err.Error(), nil)
